@@ -1,11 +1,23 @@
-# setup_cmd: pre-build the library variants and reference self-tests for the current tree.
-import vlib, sys, concurrent.futures
+# setup_cmd: pre-build the library variants, the CLI tools and the reference self-test for the current tree,
+# so that the quick checks start from a warm cache (they rebuild anyway whenever /repo's sources change).
+import concurrent.futures, glob, os, subprocess, sys
+import vlib
 
 
 def main():
     try:
         with concurrent.futures.ThreadPoolExecutor(3) as ex:
-            list(ex.map(vlib.build_liblzma, ["san", "fast"]))
+            futs = [ex.submit(vlib.build_liblzma, v) for v in ("san", "fast", "sched", "tsan")] + [ex.submit(vlib.build_cli)]
+            for f in futs:
+                f.result()
+        exe = vlib.build_harness("ref_selftest", ["ref/selftest.c", "ref/ref_xz.c", "ref/ref_lzma.c", "ref/ref_check.c"], "fast")
+        files = sorted(glob.glob(os.path.join(vlib.REPO, "tests/files/*.xz")) + glob.glob(os.path.join(vlib.REPO, "tests/files/*.lzma"))
+                       + glob.glob(os.path.join(vlib.REPO, "tests/files/*.lz")))
+        r = subprocess.run([exe] + files, capture_output=True, text=True)
+        last = r.stdout.strip().splitlines()[-1] if r.stdout.strip() else ""
+        print("reference self-test:", last)
+        if "disagree=0" not in last:
+            print(r.stdout[-2000:]); print("reference implementation disagrees with liblzma on the suite's files"); return 2
     except vlib.BuildError as e:
         print(e); return 2
     print("setup ok")
